@@ -146,7 +146,13 @@ def check_corr(ctx, case):
     conv = (lambda v: np.float64(v)) if case['numpy'] else (lambda v: v)
     H = None if case['H'] is None else conv(case['H'])
     S = None if case['S'] is None else conv(case['S'])
-    data = {conv(T): conv(c) for T, c in zip(case['Ts'], case['Cps'])}
+    pairs = list(zip(case['Ts'], case['Cps']))
+    # the mapping of Cp points is filled in some order (a caller's dict, or points merged in later): descending, rotated, as drawn
+    k = (len(pairs) + int(sum(case['Ts']))) % 3 if pairs else 0
+    pairs = pairs[::-1] if k == 1 else (pairs[len(pairs) // 2:] + pairs[:len(pairs) // 2] if k == 2 else pairs)
+    if k and len(pairs) > 1:
+        ctx.event('Cp-mapping-not-in-ascending-order')
+    data = {conv(T): conv(c) for T, c in pairs}
     obj = m['Group'](H, S, data, conv(case['T_ref']), tuple(case['range']) if case['range'] else None)
     units = UNIT_CHOICES[case['units']]
     zero = (case['H'] == 0 or case['S'] == 0 or any(c == 0 for c in case['Cps']))
